@@ -5,7 +5,9 @@ their ASTs (mitmlint/pyint.py; nothing is imported or executed) on synthetic flo
 written (local names, if/elif vs guard clauses, break vs return, helpers the version lookup or the error construction was moved into, logging,
 assertions, f-strings) does not matter, only what they do with those states:
   R38.1 converter chain.  The converter table (the module-level mapping version -> converter function of compat.py, whatever it is called) is
-        evaluated.  ``migrate_flow`` is interpreted on entry states modelled on the shipped historical dumps - an HTTP flow of format (0, 11, x)
+        obtained by EXECUTING the module's top-level statements in order (``_MInterp.run_module``): a dict literal, a registry filled by a
+        registering decorator on every converter (``@converts_from(7)``), ``TABLE[k] = f`` / ``TABLE.update(..)`` statements or a loop over
+        pairs all give the same mapping; a top level that raises (a duplicate registration caught by an assertion) is reported.  ``migrate_flow`` is interpreted on entry states modelled on the shipped historical dumps - an HTTP flow of format (0, 11, x)
         with bytes keys, a WebSocket handshake/messages pair and a lone messages record of format 7, an HTTP flow without response of format 10
         - and every converter invocation is observed: the migration terminates (no converter runs twice for one state: a converter that does
         not advance the version migrate_flow reads - wrong constant, wrong key kind bytes/str, result dropped - is applied again and again),
@@ -24,9 +26,11 @@ assertions, f-strings) does not matter, only what they do with those states:
         different connections interleave arbitrarily in old dumps, hence such a container may only be touched BY KEY from the code reachable
         from the converter table / ``migrate_flow``: keyed insert (``X[k] = v`` / ``setdefault`` / ``update``), keyed lookup (``X[k]`` /
         ``get`` / ``k in X``) and removal by the lookup that consumes the entry (``pop(k)`` whose value is used, ``del X[k]`` next to a read
-        of the same key).  Bulk or unkeyed eviction (``clear()``, ``popitem()``, rebinding the global, a discarded ``pop``) loses the partner
-        of a record that arrives later; a container that is consumed but never filled loses every partner.  Any other use (``len``, iteration,
-        aliasing) is refused (exit 2).  In addition the interleaving itself is interpreted: two handshakes followed by their two message
+        of the same key).  The container is followed through its other names: a local alias (``t = X``, ``t = X if c else Y``, walrus, ``for t in (X, Y)``,
+        ``for t, conn, field in ((X, ..), (Y, ..))``) and the parameter of a module helper it is handed to (``_stable_id(X, conn, "address")``) -
+        the uses of that name are classified like uses of ``X`` itself; ``len(X)`` / ``bool(X)`` / truth tests only observe.  Bulk or unkeyed eviction (``clear()``, ``popitem()``, rebinding the global, a discarded ``pop``) loses the partner
+        of a record that arrives later; a container that is consumed but never filled loses every partner.  Any other use (iteration, returning / storing
+        the container, handing it to code outside the module) is refused (exit 2).  In addition the interleaving itself is interpreted: two handshakes followed by their two message
         records (in the other order) must each be joined with their own handshake.
 NOT decided: what each converter does to the rest of the state (value-level migration) beyond the paths the entry states take, the
 historical dump files themselves.
@@ -111,6 +115,12 @@ class _Endless(Exception):
     def __init__(self, name):
         super().__init__(name)
         self.name = name
+
+
+class _ModuleFails(Exception):
+    def __init__(self, raised):
+        super().__init__(raised.name)
+        self.raised = raised
 
 
 _EXC_BASES = {n for n in dir(builtins) if isinstance(getattr(builtins, n), type) and issubclass(getattr(builtins, n), BaseException)}
@@ -217,6 +227,67 @@ class _MInterp(Interp):
         finally:
             if st.finalbody:
                 self.block(st.finalbody, env, mod, depth)
+
+    # -- module top level ------------------------------------------------------------------------
+    def run_module(self, rel):
+        """Execute the top-level statements of module ``rel`` in order, so that module state is what importing the module leaves behind however
+        it is built: a dict literal, a registry filled by a registering decorator on every function (``@converts_from(7)``), ``TABLE[k] = f`` /
+        ``TABLE.update(..)`` statements, a loop over pairs.  pyint by itself evaluates module constants lazily from their last assignment
+        and ignores decorators.  Name assignments are evaluated in order (kept lazy when their value is outside the interpreter's model:
+        type aliases ...); decorators are applied bottom-up - a decorator that is a repository function is interpreted, one the interpreter
+        cannot evaluate (typing / library decorators) is transparent as in pyint; other statements run when they mention a module-level
+        container."""
+        mod = self.model.module(rel)
+        mutable = (dict, list, set)
+
+        def mentions_state(st):
+            for n in ast.walk(st):
+                if isinstance(n, ast.Name) and mod.assigns(n.id):
+                    try:
+                        if isinstance(self.modconst(mod, n.id, 0), mutable):
+                            return True
+                    except (AnalysisError, Raised):
+                        pass
+            return False
+
+        for st in mod.tree.body:
+            if isinstance(st, (ast.Import, ast.ImportFrom, ast.ClassDef, ast.Pass)) or (isinstance(st, ast.Expr) and isinstance(st.value, ast.Constant)):
+                continue
+            if isinstance(st, (ast.FunctionDef, ast.AsyncFunctionDef)):
+                v = Func(mod, st)
+                for dec in reversed(st.decorator_list):
+                    try:
+                        d = self.ev(dec, {}, mod, 0)
+                    except AnalysisError:
+                        continue  # not a repository decorator the interpreter can see: transparent (pyint's default)
+                    if isinstance(d, Func):
+                        v = self.apply(d, [v], {}, 0, dec)
+                    elif callable(d):
+                        try:
+                            v = self.apply(d, [v], {}, 0, dec)
+                        except AnalysisError:
+                            continue
+                if not (isinstance(v, Func) and v.node is st):
+                    self.overrides[(rel, st.name)] = v
+                continue
+            name_target = None
+            if isinstance(st, ast.Assign) and len(st.targets) == 1 and isinstance(st.targets[0], ast.Name):
+                name_target = st.targets[0].id
+            elif isinstance(st, ast.AnnAssign) and isinstance(st.target, ast.Name):
+                if st.value is None:
+                    continue
+                name_target = st.target.id
+            if name_target is not None:
+                key = (rel, name_target)
+                if key in self.overrides:
+                    continue
+                try:
+                    self._modconst[key] = self.ev(st.value, {}, mod, 0)
+                except AnalysisError:
+                    self._modconst.pop(key, None)  # stays lazy: evaluated (or refused) when something needs it
+                continue
+            if mentions_state(st):
+                self.stmt(st, {}, mod, 0)
 
     # -- observed calls --------------------------------------------------------------------------
     def call_func(self, f: Func, args, kwargs, depth):
@@ -445,36 +516,83 @@ def _cross_record_state(ctx, rows, tname="converters"):
                 todo.append(n.id)
     unknown = []
     uses = {c: {"store": [], "read": [], "consume": []} for c in containers}
-    bad = False
-    for fname in sorted(reach):
-        fn = reach[fname]
+    state = {"bad": False}
+    scanned = set()
+
+    def fail(where, construct, why):
+        state["bad"] = True
+        ctx.fail("R38.3", where, construct, why)
+
+    def stores_of(fn, name):
+        out = [n for n in ast.walk(fn) if isinstance(n, ast.Name) and n.id == name and isinstance(n.ctx, (ast.Store, ast.Del))]
+        out += [a for n in ast.walk(fn) if isinstance(n, ast.arguments) for a in n.posonlyargs + n.args + n.kwonlyargs + ([n.vararg] if n.vararg else []) + ([n.kwarg] if n.kwarg else []) if a.arg == name]
+        return out
+
+    def alias_target(fn, n):
+        """The local name that denotes the same object as the Name node ``n`` from here on, when ``n`` is only given another name:
+        ``t = n`` / ``t = n if c else m`` / ``(t := n)`` / ``for t in (n, m)`` / ``for t, a, b in ((n, x, y), (m, x2, y2))``.  The target must be
+        bound exactly once in the function (by this very construct), so it denotes nothing else."""
+        p = n._parent
+        src = n
+        if isinstance(p, ast.IfExp) and src in (p.body, p.orelse):
+            src, p = p, p._parent
+        tgt = binder = None
+        if isinstance(p, ast.Assign) and p.value is src and len(p.targets) == 1 and isinstance(p.targets[0], ast.Name):
+            tgt, binder = p.targets[0], p
+        elif isinstance(p, ast.AnnAssign) and p.value is src and isinstance(p.target, ast.Name):
+            tgt, binder = p.target, p
+        elif isinstance(p, ast.NamedExpr) and p.value is src:
+            tgt, binder = p.target, p
+        elif isinstance(p, (ast.Tuple, ast.List)) and src in p.elts:
+            pp = getattr(p, "_parent", None)
+            if isinstance(pp, ast.For) and pp.iter is p and isinstance(pp.target, ast.Name):
+                tgt, binder = pp.target, pp
+            elif isinstance(pp, (ast.Tuple, ast.List)) and isinstance(getattr(pp, "_parent", None), ast.For) and pp._parent.iter is pp:
+                loop, i = pp._parent, p.elts.index(src)
+                if (isinstance(loop.target, (ast.Tuple, ast.List)) and all(isinstance(r, (ast.Tuple, ast.List)) and len(r.elts) == len(loop.target.elts) for r in pp.elts)
+                        and not any(isinstance(x, ast.Starred) for r in pp.elts for x in r.elts) and isinstance(loop.target.elts[i], ast.Name)):
+                    tgt, binder = loop.target.elts[i], loop
+        if tgt is None:
+            return None
+        others = [x for x in stores_of(fn, tgt.id) if x is not tgt]
+        if others or any(tgt.id in g.names for g in ast.walk(fn) if isinstance(g, (ast.Global, ast.Nonlocal))) or tgt.id in containers or tgt.id in funcs:
+            return None
+        return tgt.id
+
+    def scan(fname, fn, local, c, kind, keyed_reads, dels):
+        """classify every use, inside ``fn``, of the name ``local`` that denotes the module-level container ``c`` there (kind: 'global' - the
+        module-level name itself, 'param' - a parameter the container was passed for, 'alias' - a local name bound to it once)"""
+        if (id(fn), local, c) in scanned:
+            return
+        scanned.add((id(fn), local, c))
+        shown = c if local == c else f"{c} (as {local})"
         globs = {g for n in ast.walk(fn) if isinstance(n, ast.Global) for g in n.names}
         shadow = {a.arg for n in ast.walk(fn) if isinstance(n, ast.arguments) for a in n.posonlyargs + n.args + n.kwonlyargs + ([n.vararg] if n.vararg else []) + ([n.kwarg] if n.kwarg else [])}
-        keyed_reads = set()
-        dels = []
         for n in ast.walk(fn):
-            if not (isinstance(n, ast.Name) and n.id in containers):
+            if not (isinstance(n, ast.Name) and n.id == local):
                 continue
-            c = n.id
-            if c in shadow:
+            if kind == "global" and c in shadow:
                 unknown.append(f"{fname}: parameter {c} shadows the module-level container")
                 continue
             p = n._parent
             if isinstance(n.ctx, (ast.Store, ast.Del)):
-                if c in globs:
-                    bad = True
-                    ctx.fail("R38.3", (CP, fname, n), f"{fname}: rebinds {c}",
-                             f"the converter replaces the container {c} that carries state from earlier records: every pending entry is dropped, so a later record "
-                             "that refers to an earlier one (e.g. the websocket record of an interleaved connection) loses its partner and loads as a wrong flow")
+                if kind == "alias":
+                    continue  # its one binding (alias_target made sure there is no other)
+                if kind == "param":
+                    unknown.append(f"{fname}: rebinds its parameter {local} that stands for {c}")
+                elif c in globs:
+                    fail((CP, fname, n), f"{fname}: rebinds {c}",
+                         f"the converter replaces the container {c} that carries state from earlier records: every pending entry is dropped, so a later record "
+                         "that refers to an earlier one (e.g. the websocket record of an interleaved connection) loses its partner and loads as a wrong flow")
                 else:
                     unknown.append(f"{fname}: local name {c} shadows the module-level container")
                 continue
             if isinstance(p, ast.Subscript) and p.value is n and not isinstance(p.slice, ast.Slice):
                 k = norm(p.slice)
                 if isinstance(p.ctx, ast.Store):
-                    uses[c]["store"].append(f"{fname}: {c}[{k}] = ...")
+                    uses[c]["store"].append(f"{fname}: {shown}[{k}] = ...")
                 elif isinstance(p.ctx, ast.Load):
-                    uses[c]["read"].append(f"{fname}: {c}[{k}]")
+                    uses[c]["read"].append(f"{fname}: {shown}[{k}]")
                     keyed_reads.add((c, k))
                 else:
                     dels.append((c, k, p))
@@ -482,38 +600,49 @@ def _cross_record_state(ctx, rows, tname="converters"):
             if isinstance(p, ast.Attribute) and p.value is n and isinstance(getattr(p, "_parent", None), ast.Call) and p._parent.func is p:
                 call, meth = p._parent, p.attr
                 if meth in _EVICT:
-                    bad = True
-                    ctx.fail("R38.3", (CP, fname, call), f"{fname}: {c}.{meth}()",
-                             f"{_EVICT[meth]}: records of different connections interleave in old dumps, so a record that refers to an evicted entry "
-                             "(e.g. the websocket record whose handshake was written before another handshake) is migrated without its partner and loads as a wrong flow")
+                    fail((CP, fname, call), f"{fname}: {c}.{meth}()",
+                         f"{_EVICT[meth]}: records of different connections interleave in old dumps, so a record that refers to an evicted entry "
+                         "(e.g. the websocket record whose handshake was written before another handshake) is migrated without its partner and loads as a wrong flow")
                     continue
                 if meth == "pop" and call.args:
                     k = norm(call.args[0])
                     if isinstance(getattr(call, "_parent", None), ast.Expr):
-                        bad = True
-                        ctx.fail("R38.3", (CP, fname, call), f"{fname}: {c}.pop({k}) discarded",
-                                 "an entry is removed without being joined to the record that refers to it: that record later loads without its partner")
+                        fail((CP, fname, call), f"{fname}: {c}.pop({k}) discarded",
+                             "an entry is removed without being joined to the record that refers to it: that record later loads without its partner")
                     else:
-                        uses[c]["consume"].append(f"{fname}: {c}.pop({k})")
+                        uses[c]["consume"].append(f"{fname}: {shown}.pop({k})")
                         keyed_reads.add((c, k))
                     continue
                 if meth in _KEYED_READ | _KEYED_STORE and (call.args or call.keywords):
                     if meth in _KEYED_STORE:
-                        uses[c]["store"].append(f"{fname}: {c}.{meth}(...)")
+                        uses[c]["store"].append(f"{fname}: {shown}.{meth}(...)")
                     if meth in _KEYED_READ:
-                        uses[c]["read"].append(f"{fname}: {c}.{meth}({norm(call.args[0]) if call.args else ''})")
+                        uses[c]["read"].append(f"{fname}: {shown}.{meth}({norm(call.args[0]) if call.args else ''})")
                         if call.args:
                             keyed_reads.add((c, norm(call.args[0])))
                     continue
                 unknown.append(f"{fname}: {norm(call)[:80]}")
                 continue
             if isinstance(p, ast.Compare) and len(p.ops) == 1 and isinstance(p.ops[0], (ast.In, ast.NotIn)) and p.comparators[0] is n:
-                uses[c]["read"].append(f"{fname}: {norm(p.left)} in {c}")
+                uses[c]["read"].append(f"{fname}: {norm(p.left)} in {shown}")
                 keyed_reads.add((c, norm(p.left)))
                 continue
-            # handed to a module function that only reads the corresponding parameter (a constant table passed on): a read
+            # looked at as a whole without touching an entry: len(X) / bool(X) / a truth test (e.g. for a log line or a guard)
+            top, tp = n, p
+            while isinstance(tp, ast.BoolOp) or (isinstance(tp, ast.UnaryOp) and isinstance(tp.op, ast.Not)):
+                top, tp = tp, getattr(tp, "_parent", None)
+            if (isinstance(p, ast.Call) and isinstance(p.func, ast.Name) and p.func.id in ("len", "bool") and p.func.id not in funcs and p.args == [n] and not p.keywords) or \
+                    (isinstance(tp, (ast.If, ast.While, ast.IfExp, ast.Assert)) and tp.test is top) or (top is not n and isinstance(top, ast.UnaryOp)):
+                continue
+            # given another local name (assignment, conditional expression, walrus, loop over the containers): the uses of that name count
+            t = alias_target(fn, n)
+            if t is not None:
+                scan(fname, fn, t, c, "alias", keyed_reads, dels)
+                continue
+            # handed to a module function: one that only reads the corresponding parameter (a constant table passed on) is a read; otherwise
+            # the parameter stands for the container inside the callee and its uses there are classified like the ones here
             call = p if isinstance(p, ast.Call) else (p._parent if isinstance(p, ast.keyword) and isinstance(getattr(p, "_parent", None), ast.Call) else None)
-            if call is not None and isinstance(call.func, ast.Name) and call.func.id in funcs and call.func.id not in shadow:
+            if call is not None and call.func is not n and isinstance(call.func, ast.Name) and call.func.id in funcs and call.func.id not in shadow and not stores_of(fn, call.func.id):
                 g = funcs[call.func.id]
                 gparams = [a.arg for a in g.args.posonlyargs + g.args.args]
                 target = None
@@ -522,16 +651,30 @@ def _cross_record_state(ctx, rows, tname="converters"):
                 elif n in call.args and not any(isinstance(a, ast.Starred) for a in call.args) and call.args.index(n) < len(gparams):
                     target = gparams[call.args.index(n)]
                 if target is not None and _param_untouched(funcs, g, target, set()):
-                    uses[c]["read"].append(f"{fname}: {c} handed to {g.name}({target}=...) which only reads it")
+                    uses[c]["read"].append(f"{fname}: {shown} handed to {g.name}({target}=...) which only reads it")
+                    continue
+                if target is not None and len([x for x in stores_of(g, target)]) == 1 and not isinstance(g, ast.AsyncFunctionDef):
+                    kr, dl = set(), []
+                    scan(g.name, g, target, c, "param", kr, dl)
+                    settle_dels(g.name, kr, dl)
                     continue
             unknown.append(f"{fname}: {norm(p)[:80]}")
+
+    def settle_dels(fname, keyed_reads, dels):
         for c, k, node in dels:
             if (c, k) in keyed_reads:
                 uses[c]["consume"].append(f"{fname}: del {c}[{k}]")
             else:
-                bad = True
-                ctx.fail("R38.3", (CP, fname, node), f"{fname}: del {c}[{k}] without a lookup of that key",
-                         "an entry is removed without being joined to the record that refers to it: that record later loads without its partner")
+                fail((CP, fname, node), f"{fname}: del {c}[{k}] without a lookup of that key",
+                     "an entry is removed without being joined to the record that refers to it: that record later loads without its partner")
+
+    for fname in sorted(reach):
+        fn = reach[fname]
+        keyed_reads, dels = set(), []
+        for c in sorted({n.id for n in ast.walk(fn) if isinstance(n, ast.Name) and n.id in containers}):
+            scan(fname, fn, c, c, "global", keyed_reads, dels)
+        settle_dels(fname, keyed_reads, dels)
+    bad = state["bad"]
     if bad:
         return
     if unknown:
@@ -611,11 +754,20 @@ def check(ctx):
 
     def fresh():
         it = _MInterp(m)
+        try:
+            it.run_module(CP)
+        except Raised as r:
+            raise _ModuleFails(r)
         tname, tnode, table = _converter_table(ctx, it)
         it.watch = {id(f.node): f.node.name for f in table.values()}
         return it, tname, tnode, table
 
-    it, tname, tnode, table = fresh()
+    try:
+        it, tname, tnode, table = fresh()
+    except _ModuleFails as e:
+        ctx.fail("R38.1", where_tab, "compat.py: module top level raises", f"executing the module's top-level statements (the converter registrations) raises {e.raised.name}"
+                 f"{': ' + str(e.raised.msg)[:80] if e.raised.msg else ''}: the module cannot be imported / a converter is registered twice, no flow file loads")
+        return
     where_tab = (CP, "<module>", tnode)
     rows = {k: f.node.name for k, f in table.items()}
     ctx.require(len(rows) >= 20, f"{tname} has only {len(rows)} rows")
@@ -845,6 +997,11 @@ MUTANTS = [
            "        if _websocket_handshakes:\n            _websocket_handshakes.popitem()\n        _websocket_handshakes[data[\"id\"]] = copy.deepcopy(data)\n", "R38.3"),
     Mutant("handshake-never-remembered", CP, "    if \"websocket\" in data[\"metadata\"]:\n        _websocket_handshakes[data[\"id\"]] = copy.deepcopy(data)\n\n", "", "R38.3"),
     Mutant("connection-ids-forgotten-per-flow", CP, "def convert_4_5(data):\n    data[\"version\"] = 5\n", "def convert_4_5(data):\n    data[\"version\"] = 5\n    server_connections.clear()\n", "R38.3"),
+    Mutant("registries-cleared-through-loop-alias", CP, "def convert_4_5(data):\n    data[\"version\"] = 5\n",
+           "def convert_4_5(data):\n    data[\"version\"] = 5\n    for registry in (client_connections, server_connections):\n        if len(registry) > 4096:\n            registry.clear()\n", "R38.3"),
+    Mutant("handshake-cache-bounded-inside-helper", CP, "_websocket_handshakes = {}\n\n\ndef convert_11_12(data):\n    data[\"version\"] = 12\n\n    if \"websocket\" in data[\"metadata\"]:\n",
+           "_websocket_handshakes = {}\n\n\ndef _bound(cache, limit=64):\n    while len(cache) >= limit:\n        cache.popitem()\n\n\ndef convert_11_12(data):\n    data[\"version\"] = 12\n\n"
+           "    if \"websocket\" in data[\"metadata\"]:\n        _bound(_websocket_handshakes)\n", "R38.3"),
     Mutant("stream-skips-migration", IO, "yield flow.Flow.from_state(compat.migrate_flow(loaded))", "yield flow.Flow.from_state(loaded)", "R38.2"),
     Mutant("version-bump-only-when-marked", CP, "def convert_12_13(data):\n    data[\"version\"] = 13\n    if data[\"marked\"]:\n        data[\"marked\"] = \":default:\"\n",
            "def convert_12_13(data):\n    if data[\"marked\"]:\n        data[\"version\"] = 13\n        data[\"marked\"] = \":default:\"\n", "R38.1"),
